@@ -82,9 +82,23 @@ pub struct SimDds {
 impl SimDds {
   /// depth: 0 KeepAll, d KeepLast(d)
   pub fn new(depth: i32, reliable: bool) -> Self {
+    Self::new_with_limits(depth, reliable, None)
+  }
+  /// `per_instance`: ResourceLimits { max_samples_per_instance } next to the History setting
+  pub fn new_with_limits(depth: i32, reliable: bool, per_instance: Option<i32>) -> Self {
     super::clock::install(1_000_000);
     super::net::install();
-    let q = qos(reliable, depth, false);
+    let mut q = qos(reliable, depth, false);
+    if let Some(m) = per_instance {
+      q = crate::QosPolicyBuilder::new()
+        .resource_limits(crate::policy::ResourceLimits { max_samples: 1000, max_instances: 100, max_samples_per_instance: m })
+        .build()
+        .modify_by(&q);
+      // (modify_by: the second argument's policies win where set; resource limits come from the first)
+      if q.resource_limits().is_none() {
+        panic!("MACHINERY: resource limits lost in QoS merge");
+      }
+    }
     let (sub, topic) = sub_and_topic("simd_t", &q, true);
     let kit = mk_reader(guid(2, reader_eid(7)), "simd_t", "Msg", &q);
     let ReaderKit { reader, topic_cache, notification_rx, status_rx, command_tx, waker, event_source, pstatus_rx, .. } = kit;
